@@ -10,9 +10,27 @@
 //                                             and to the restored sketch; R: both contents
 //   3 kind byte*                              explicit image through deserialize(bytes);  4 kind byte*: through deserialize(istream)
 // a decoded sketch is shown as 1 [bytes consumed, stream only] lg_max lg_cur total offset n, then per counter sorted by item: len item* w
+//   7 r path                                  read the image of r back through `path` and serialize the restored sketch; R: 1, its image
+// An allocation request above 256 MiB is refused and reported as R -9 (never as a plain rejection): a reader that sizes an
+// allocation from a corrupted or never-read field must not take the machine down while it is being reported.
 #include "common.hpp"
 #include <algorithm>
 #include <sstream>
+#include <new>
+#include <cstdlib>
+static bool g_over_cap = false;
+static void* capped_alloc(size_t n) {
+  if (n > (size_t(256) << 20)) { g_over_cap = true; throw std::bad_alloc(); }
+  void* p = malloc(n ? n : 1);
+  if (!p) throw std::bad_alloc();
+  return p;
+}
+void* operator new(size_t n) { return capped_alloc(n); }
+void* operator new[](size_t n) { return capped_alloc(n); }
+void operator delete(void* p) noexcept { free(p); }
+void operator delete[](void* p) noexcept { free(p); }
+void operator delete(void* p, size_t) noexcept { free(p); }
+void operator delete[](void* p, size_t) noexcept { free(p); }
 #define private public
 #define protected public
 #include "frequent_items_sketch.hpp"
@@ -127,7 +145,14 @@ static void show_decoded(int kind, int path, const std::vector<uint8_t>& img, Ou
   b->show(o);
 }
 
+static void handler1(const Line& t, Out& o);
 static void handler(const Line& t, Out& o) {
+  g_over_cap = false;
+  try { handler1(t, o); }
+  catch (...) { if (!g_over_cap) throw; }
+  if (g_over_cap) { o.res.clear(); o.flt.clear(); o.has_flt = false; o.R(-9); }
+}
+static void handler1(const Line& t, Out& o) {
   switch ((int)t.at(0)) {
   case 1: {
     int kind = (int)t.at(2); uint8_t lgm = (uint8_t)t.at(3), lgs = (uint8_t)t.at(4);
@@ -158,6 +183,14 @@ static void handler(const Line& t, Out& o) {
     std::unique_ptr<Base> b(decode(s.kind, (int)t.at(2), img, &used));
     a->updates(t, 3); b->updates(t, 3);
     o.R(1); a->show(o); o.R(-7); b->show(o);
+    break; }
+  case 7: {
+    Base& s = get(t.at(1));
+    auto img = s.image(o, false);
+    long used = -1;
+    std::unique_ptr<Base> b(decode(s.kind, (int)t.at(2), img, &used));
+    auto img2 = b->image(o, true);
+    if (o.res.empty()) { o.R(1); for (uint8_t x : img2) o.R(x); }
     break; }
   case 3: case 4: {
     std::vector<uint8_t> img; for (size_t i = 2; i < t.size(); ++i) img.push_back((uint8_t)t[i]);
